@@ -63,6 +63,10 @@ TDeliver == Is("deliver") /\ cur = E.m /\ mu.slot = E.slot + 1 /\ Deliver(E.h) /
 TBlocked == Is("blocked") /\ cur = E.m /\ mu.slot = E.slot + 1 /\ Blocked(E.h) /\ Keep3
 TSelfRemove == Is("selfremove") /\ mu.slot = E.slot + 1 /\ SelfRemove(E.h) /\ Keep3
 
+\* dispatch() returns (deferred hook, still under the mutex): the specification released the
+\* mutex with the last handler visited, and nobody can have taken it since
+TDispatched == Is("dispatched") /\ mu = Free /\ UNCHANGED vars /\ Keep3
+
 \* Message.Read failed: the stream is dead (closed locally or by the peer)
 TReadErr == /\ Is("read_err") /\ proc = "reading" /\ proc' = "closing" /\ stream' = "closed"
             /\ UNCHANGED <<slots, hst, delivered, taken, cap, closerN, closeN, mu, inbox, cur, res>> /\ Keep3
@@ -89,7 +93,7 @@ TReset == /\ Is("reset")
           /\ res' = ResNone /\ pend' = NoPend /\ tagOf' = [h \in Handlers |-> -1]
 
 TNext == \/ TAnnounce \/ TMake \/ TRemove \/ TRemoveErr \/ TRemoved \/ TCloser \/ TQClose
-         \/ TDispatch \/ TFilter \/ TDeliver \/ TBlocked \/ TSelfRemove
+         \/ TDispatch \/ TFilter \/ TDeliver \/ TBlocked \/ TSelfRemove \/ TDispatched
          \/ TReadErr \/ TShutdown \/ TDetach \/ TQuiesce \/ TReset
 
 TSpec == TInit /\ [][TNext]_tvars
